@@ -1,0 +1,86 @@
+/*!
+Verification hooks, compiled only with the cargo feature `verif` (which also enables
+`gneiss-mqtt/verif`).  Add-only: lets an out-of-crate harness run the crate-private glue of the
+AWS builder (custom-auth username assembly, final connect options, AWS client-option defaults)
+on arbitrary inputs and read the results back.  Nothing in the crate depends on this module.
+*/
+
+use crate::{apply_aws_defaults, AwsClientBuilder, AwsCustomAuthOptions, AwsCustomAuthOptionsBuilder};
+use gneiss_mqtt::client::config::{ConnectOptions, MqttClientOptions};
+use gneiss_mqtt::error::GneissResult;
+
+/// Raw inputs of a custom-auth configuration, exactly as a user would pass them to
+/// `AwsCustomAuthOptions::builder_signed` / `builder_unsigned`, `with_username`, `with_password`.
+pub struct CustomAuthInput<'a> {
+    /// authorizer name (None: account default authorizer)
+    pub authorizer_name: Option<&'a str>,
+    /// (signature, token key name, token key value) for a signed authorizer; None for an unsigned one
+    pub signed: Option<(&'a str, &'a str, &'a str)>,
+    /// value passed to `with_username`, if any
+    pub username: Option<&'a str>,
+    /// value passed to `with_password`, if any
+    pub password: Option<&'a [u8]>,
+}
+
+fn builder_from_input(input: &CustomAuthInput) -> AwsCustomAuthOptionsBuilder {
+    let mut builder =
+        match input.signed {
+            Some((signature, key_name, key_value)) => AwsCustomAuthOptions::builder_signed(input.authorizer_name, signature, key_name, key_value),
+            None => AwsCustomAuthOptions::builder_unsigned(input.authorizer_name),
+        };
+    if let Some(username) = input.username {
+        builder.with_username(username);
+    }
+    if let Some(password) = input.password {
+        builder.with_password(password);
+    }
+    builder
+}
+
+/// Runs the public custom-auth builder path on the inputs and returns what `build()` returns.
+pub fn build_custom_auth(input: &CustomAuthInput) -> AwsCustomAuthOptions {
+    builder_from_input(input).build()
+}
+
+/// The query parameters `AwsCustomAuthOptionsBuilder::build_query_params` computes (before they are joined with `&`).
+pub fn query_params(input: &CustomAuthInput) -> Vec<String> {
+    builder_from_input(input).build_query_params()
+}
+
+/// Final CONNECT username of a custom-auth configuration.
+pub fn custom_auth_username(options: &AwsCustomAuthOptions) -> &str {
+    options.username.as_str()
+}
+
+/// Final CONNECT password of a custom-auth configuration.
+pub fn custom_auth_password(options: &AwsCustomAuthOptions) -> Option<&[u8]> {
+    options.password.as_deref()
+}
+
+/// `AwsClientBuilder::build_final_connect_options` on user-supplied connect options: for a
+/// custom-auth builder when `custom_auth` is given, otherwise for an mTLS (from memory) builder.
+/// No file or network access; the TLS material is never parsed on this path.
+pub fn final_connect_options(custom_auth: Option<AwsCustomAuthOptions>, user_connect_options: ConnectOptions) -> GneissResult<ConnectOptions> {
+    let builder =
+        match custom_auth {
+            Some(options) => AwsClientBuilder::new_direct_with_custom_auth("verif.invalid", options, None)?,
+            None => AwsClientBuilder::new_direct_with_mtls_from_memory("verif.invalid", &[], &[], None)?,
+        };
+
+    Ok(builder.build_final_connect_options(user_connect_options))
+}
+
+/// `apply_aws_defaults` on user-supplied client options.
+pub fn aws_defaults(options: MqttClientOptions) -> MqttClientOptions {
+    apply_aws_defaults(options)
+}
+
+/// `urlencoding::encode`, the function the builder applies to an unencoded signature.
+pub fn url_encode(data: &str) -> String {
+    urlencoding::encode(data).to_string()
+}
+
+/// `urlencoding::encode_binary` (what `encode` forwards to), usable on bytes that are not UTF-8.
+pub fn url_encode_binary(data: &[u8]) -> String {
+    urlencoding::encode_binary(data).to_string()
+}
